@@ -4,7 +4,7 @@
    evaluated on the float instance of the model by vm_compute and replayed on the implementation by the check
    (known findings K3-K6 in /verif/known_findings.json). *)
 From Coq Require Import Reals Lra Floats.
-From TA Require Import Base Model Generic FloatInst Run XR Proofs.Ring Proofs.XBase Proofs.XSd Proofs.XMad Proofs.Wiring Proofs.Osc Proofs.XFast Proofs.XCor Proofs.XRoc.
+From TA Require Import Base Model Generic FloatInst Run XR Proofs.Ring Proofs.XBase Proofs.XSd Proofs.XMad Proofs.Wiring Proofs.Osc Proofs.XFast Proofs.XCor Proofs.XRoc Proofs.XEr.
 
 (* exact arithmetic: on a flat window (any length >= 1, at any point of any history, since outputs depend on the window only)
    MAD = 0, SD = 0, the mean is the level and the Bollinger bands collapse onto it, for every multiplier *)
@@ -37,6 +37,10 @@ Definition last_out (ops : list fop) : list float :=
 Theorem C08_K3_er_flat_nan :
   map PrimFloat.is_nan (last_out [oN 0 KEr (Pm 3 0 0 0); oX 0 7; oX 0 7]) = [true].
 Proof. vm_compute. reflexivity. Qed.
+
+(* ... and in exact arithmetic, for every period and every flat level: the ratio is 0/0 *)
+Theorem C08_K3_er_flat_exact : forall p h x, (forall y, In y (er_path p h x) -> y = x) -> er_spec p h x = XNaN.
+Proof. exact er_flat_nan. Qed.
 
 (* K4: RSI(1) at the second equal input: both averages 0 *)
 Theorem C08_K4_rsi_flat_nan :
